@@ -31,6 +31,12 @@ Proof. intros H. unfold pypow. destruct (Req_EM_T x 0).
   - destruct (Req_EM_T e 0); lra.
   - left. apply exp_pos. Qed.
 
+(* ---- partial functions (a Python function that may raise) ---- *)
+Definition obind {A B : Type} (o : option A) (f : A -> option B) : option B :=
+  match o with Some a => f a | None => None end.
+Notation "'dobind' x <- e ;; r" := (obind e (fun x => r))
+  (at level 200, x pattern, e at level 100, r at level 200, right associativity).
+
 (* ---- static helpers ---- *)
 Definition Rmin3 (a b c : R) := Rmin a (Rmin b c).
 Definition Rmax3 (a b c : R) := Rmax a (Rmax b c).
